@@ -4,7 +4,7 @@ E2: explains_flow + weight type on every solution of kFlowDecomp / MinFlowDecomp
     given weights; edge and node origin) and of the cyclic classes."""
 from fractions import Fraction as F
 import networkx as nx
-import common, gen, gen2, lpdump, e1, props
+import common, gen, gen2, lpdump, e1, props, vcheck
 
 LEVEL = "proof"
 EXPLANATION = ("Props/C02.v: the rows generated for kFlowDecomp (PathEnc.encode_kfd) force, for every non-ignored edge, "
@@ -88,13 +88,23 @@ def check_solution(ctx, cls, args, m, sol, routes_key="paths"):
     if len(nonempty) > args.get("k", len(nonempty)) and cls == "kFlowDecomp":
         ctx.report(f"kFlowDecomp(k={args['k']}) returned {len(nonempty)} non-empty paths", rep); return False
     why = props.explains_flow(G, args["flow_attr"], routes, weights, ignore=args.get("elements_to_ignore", []), exact=(wt == int))
+    if wt == int and VB is not None:
+        # integer weights: decided exactly by the verified checker Checkers.explains_b
+        VB.explains(G, args["flow_attr"], routes, weights, [tuple(e) for e in args.get("elements_to_ignore", [])], why is None,
+                    "returned decomposition does not explain the flow: " + str(why), rep)
+        return why is None
     if why:
         ctx.report("returned decomposition does not explain the flow: " + why, rep); return False
     return True
 
 
+VB = None
+
+
 def run(ctx):
+    global VB
     import flowpaths as fp
+    VB = vcheck.Batch(ctx)
     lpdump.install()
     ctx.rule = ("kFlowDecomp on random DAGs (<= 6 nodes) with flows = superpositions of 1-4 weighted paths (int / dyadic float), "
                 "ignore sets, subpath constraints (edge / length coverage), greedy on/off, safe-path options, given weights; "
@@ -197,3 +207,4 @@ def run(ctx):
             check_solution(ctx, "MinFlowDecomp", args, m, m.get_solution())
         else:
             ctx.count("E2_explains_flow", "mfd_unsolved")
+    VB.flush()
